@@ -12,6 +12,7 @@ GEN_CONFIG = {"groups": ["a", "b", "u"], "W": {"r1": 2, "r2": 4}, "Allowed": {"r
               "DefBehav": {"r1": "use_default", "r2": "none"}, "DefPct": {"r1": 100, "r2": 0}}
 
 
+NOHDR = "-"      # a request that does not carry the grouping header at all: a group value like any other unlisted one
 WSIZES = [2, 2, 4, 6, 10, 14, 22]      # ticks of 500 ms: 1, 2, 3, 5, 7, 11 s
 
 
@@ -47,6 +48,29 @@ def hot_storm_script(rng, nhist, rounds, k):
     return {"config": cfg, "histories": hists}
 
 
+def straddle_script(rng, nhist):
+    """a request descheduled right after it looked at the clock (the executor parks it inside its first Now() call), the clock
+    crossing into the next window meanwhile, further requests of the same key before and after it continues: a stale reading
+    carried across the boundary must not reopen the old window or reset the new one."""
+    allowed = rng.choice([1, 2, 3])
+    w = rng.choice([2, 4])
+    cfg = {"groups": ["a", "b", "u"], "W": {"r1": w}, "Allowed": {"r1": allowed}, "Pct": {"r1": {"a": 100, "b": 50, "u": -1}},
+           "DefBehav": {"r1": "use_default"}, "DefPct": {"r1": 100}, "Status": {"r1": 0}}
+    hists = []
+    for _ in range(nhist):
+        now = rng.randint(1, 9)
+        g = rng.choice(["a", "u"])
+        h = [{"ev": "reset", "now": now}]
+        pre = rng.randint(0, allowed - 1)
+        if pre:
+            h.append({"ev": "burst", "r": "r1", "g": g, "n": pre})
+        h.append({"ev": "straddle", "r": "r1", "g": g, "n": allowed + 1, "d": rng.choice([w, w - now % w, w + 1])})
+        h.append({"ev": "adv", "d": w})
+        h.append({"ev": "burst", "r": "r1", "g": g, "n": allowed + 1})
+        hists.append(h)
+    return {"config": cfg, "histories": hists}
+
+
 def share_config(rng):
     """large allowed counts with arbitrary integer percentages (incl. those whose float product lands just off an integer):
     the share is reached only by bursts of many requests"""
@@ -73,18 +97,18 @@ def share_history(rng, cfg):
 def class_configs():
     out = []
     for db in ("allow", "undefined", "block", "use_default"):
-        out.append({"groups": ["a", "b", "u", "A", "a "], "W": {"r1": 2}, "Allowed": {"r1": 2},
-                    "Pct": {"r1": {"a": 0, "b": 50, "u": -1, "A": -1, "a ": -1}}, "DefBehav": {"r1": db}, "DefPct": {"r1": 50},
+        out.append({"groups": ["a", "b", "u", "A", "a ", NOHDR], "W": {"r1": 2}, "Allowed": {"r1": 2},
+                    "Pct": {"r1": {"a": 0, "b": 50, "u": -1, "A": -1, "a ": -1, NOHDR: -1}}, "DefBehav": {"r1": db}, "DefPct": {"r1": 50},
                     "Status": {"r1": 503}})     # every rejection - over the share, 0 % share, unlisted group - carries the configured status
     return out
 
 
 def class_history(rng, cfg):
     h = [{"ev": "reset", "now": rng.randint(1, 5)}]
-    for g in ("a", "a", "b", "b", "u", "u", "u", "A", "a "):
+    for g in ("a", "a", "b", "b", "u", "u", "u", "A", "a ", NOHDR, NOHDR, NOHDR):
         h.append({"ev": "req", "r": "r1", "g": g})
     h.append({"ev": "adv", "d": 2})
-    for g in ("a", "u", "b"):
+    for g in ("a", "u", "b", NOHDR):
         h.append({"ev": "req", "r": "r1", "g": g})
     return h
 
@@ -92,14 +116,14 @@ def class_history(rng, cfg):
 def rand_config(rng, thorough):
     rems = ["r1", "r2"][: rng.choice([1, 2, 2])]
     # group header values: two listed ones, an unknown one, and spelling variants of a listed one (distinct groups)
-    cfg = {"groups": ["a", "b", "u", "A", "a "], "W": {}, "Allowed": {}, "Pct": {}, "DefBehav": {}, "DefPct": {}, "Status": {}}
+    cfg = {"groups": ["a", "b", "u", "A", "a ", NOHDR], "W": {}, "Allowed": {}, "Pct": {}, "DefBehav": {}, "DefPct": {}, "Status": {}}
     for r in rems:
         cfg["Status"][r] = rng.choice([0, 0, 429, 503, 418])        # 0 = response_status_code not configured (429)
         cfg["W"][r] = rng.choice(WSIZES)
         cfg["Allowed"][r] = rng.choice([1, 2, 3] + ([4, 5] if thorough else []))
         cfg["DefBehav"][r] = rng.choice(["none", "allow", "block", "use_default", "use_default", "undefined"])
         cfg["DefPct"][r] = rng.choice([0, 50, 100])
-        cfg["Pct"][r] = {"a": rng.choice([25, 34, 50, 100]), "b": rng.choice([0, 50, 75, 100]), "u": -1, "A": -1, "a ": -1}
+        cfg["Pct"][r] = {"a": rng.choice([25, 34, 50, 100]), "b": rng.choice([0, 50, 75, 100]), "u": -1, "A": -1, "a ": -1, NOHDR: -1}
         if cfg["DefBehav"][r] == "none":
             cfg["Pct"][r] = {g: -1 for g in cfg["groups"]}
     return cfg
@@ -297,6 +321,8 @@ def run(ctx):
         scripts.append(storm_script(ctx.rng, 3000, 8))
     for _ in range(1 if not T else 10):
         scripts.append(hot_storm_script(ctx.rng, 16, 120, 4))
+    for _ in range(2 if not T else 12):
+        scripts.append(straddle_script(ctx.rng, 6))
     for cfg in class_configs():
         scripts.append({"config": cfg, "histories": [class_history(ctx.rng, cfg) for _ in range(3)]})
     # share configurations every run contains: the percentages whose float image is not exact (p / 100 * 100 != p: 29, 57, 58) and
